@@ -61,7 +61,7 @@ def iter_ownership(ctx):
                     break
             if src is None:
                 verdicts.append(('undecided', '%s unbound' % nm, y))
-            elif isinstance(src[1][3], ast.For) and '_fits' in up(src[1][2]):
+            elif isinstance(src[1][3], ast.For) and isinstance(src[1][2], ast.Attribute) and isinstance(src[1][2].value, ast.Name) and src[1][2].value.id == it.params[0]:
                 verdicts.append(('caller-owned', 'yields the element of %s itself' % up(src[1][2]), y))
             elif isinstance(src[1][2], ast.Call) and is_call_to(src[1][2], 'copy', 'deepcopy'):
                 orig = up(src[1][2].args[0]) if src[1][2].args else '?'
